@@ -1,10 +1,13 @@
 (** Property C14 -- redirect target: the last Location is resolved against the current URI.
-    Statements only; proofs are in proofs/C14_proofs.v (flow level).
+    Statements only.  Proofs: proofs/C14_proofs.v (flow level), proofs/C14_rfc.v (parsing),
+    proofs/C14_rds.v (remove_dot_segments, merge), proofs/C14_resolve.v (normalisation, assembly).
+    The independent transcription of RFC 3986 5.2 is proofs/C14_spec.v.
 
     Level note: this is a proof about the model.  [Url.resolve] models the url crate on the
     property's grammar only (see Url.v). *)
 From Hoot Require Import Base Chunk Body Httparse Parser Url Request Call Flow.
 From Hoot.proofs Require Import BytesLemmas C17_proofs C02_proofs C02_analysis C14_proofs.
+From Hoot.proofs Require Import C14_spec C14_rfc C14_rds C14_resolve.
 Open Scope N_scope.
 
 (* ------------------------------------------------------------------ vocabulary *)
@@ -126,18 +129,34 @@ Definition KnownClass (f : inner) : Prop :=
 Theorem c14_wire : forall f p f' next g c',
   as_new_flow f p = Ok (f', Some next) -> prepared next g -> analyze_request (i_call g) = Ok c' ->
   let target := cur_uri next in
+  let line := method_name (am_method (c_req (i_call next))) ++ [32] ++ u_pq target ++ [32] ++
+              version_name (am_version (c_req (i_call f))) ++ CRLF in
   u_pq target <> [] /\
-  prelude_line (c_req c') =
-    method_name (am_method (c_req (i_call next))) ++ [32] ++ u_pq target ++ [32] ++
-    version_name (am_version (c_req (i_call f))) ++ CRLF /\
+  prelude_line (c_req c') = line /\
+  render_request_head (c_req c') = line ++ concat (map field_line (am_headers (c_req c'))) ++ CRLF /\
   (~ KnownClass f -> get_all (am_headers (c_req c')) (s2b "host") = [uri_host target]).
 Proof.
   intros f p f' next g c' H Hp Ha. cbv zeta.
   destruct (next_head _ _ _ _ _ _ H Hp Ha) as [H1 H2].
-  split; [|split; [exact H1|]].
+  split; [|split; [exact H1|split]].
   - destruct (as_new_flow_uri _ _ _ _ H) as (loc & t & _ & Hr & <-). eapply resolve_pq_nonempty; eauto.
+  - rewrite render_flat, H1. reflexivity.
   - intros Hk. apply H2. unfold KnownClass in Hk.
     destruct (get_all _ _); [reflexivity|exfalso; apply Hk; discriminate].
+Qed.
+
+(** The next request carries the header fields of the request it replaces (so the known class is
+    a property of the original request, whatever the hop). *)
+Theorem c14_headers_inherited : forall f p f' next,
+  as_new_flow f p = Ok (f', Some next) ->
+  rq_headers (am_request (c_req (i_call next))) = rq_headers (am_request (c_req (i_call f))) /\
+  (KnownClass next <-> KnownClass f).
+Proof.
+  intros f p f' next H.
+  destruct (as_new_flow_shape _ _ _ _ H) as (orig & nm & keep & Hq & (A & _)).
+  assert (E : rq_headers (am_request (c_req (i_call next))) = rq_headers (am_request (c_req (i_call f)))).
+  { unfold am_request. rewrite A, Hq. reflexivity. }
+  split; [exact E|]. unfold KnownClass. rewrite E. tauto.
 Qed.
 
 (* ------------------------------------------------------------------ errors, never a panic *)
@@ -193,6 +212,164 @@ Proof.
   split; [eapply resolve_auth_nonempty; eauto|eapply resolve_pq_nonempty; eauto].
 Qed.
 
+(* ------------------------------------------------------------------ resolve = RFC 3986 5.2 *)
+
+(** A model URI as the five components of RFC 3986 (an http::Uri carries no fragment), and back. *)
+Theorem c14_components_def : forall u,
+  components_of u =
+    {| x_scheme := u_scheme u; x_authority := Some (u_auth u); x_path := uri_path u;
+       x_query := uri_query u; x_fragment := None |} /\
+  forall s a pq, uri_of (s, a, pq) = {| u_scheme := s; u_auth := a; u_pq := pq |}.
+Proof. intros u. split; reflexivity. Qed.
+
+(** The base path is empty or absolute and contains no dot segments. *)
+Theorem c14_base_path_ok_def : forall p,
+  base_path_ok p <-> (p = [] \/ exists t, p = 47 :: t) /\ rfc_remove_dot_segments p = p.
+Proof. reflexivity. Qed.
+
+(** [Url.resolve] is the RFC 3986 5.2 resolution ([rfc_parse] per appendix B, [rfc_transform] per
+    5.2.2 with [rfc_merge] 5.2.3 and [rfc_remove_dot_segments] 5.2.4 as the RFC's string
+    algorithms), fragment dropped, followed by [rfc_normalise] -- for EVERY byte string [loc], and
+    every base whose path is empty or absolute and free of dot segments (no condition on scheme
+    or authority: an empty authority makes both sides [None]).
+
+    The condition on dot segments is forced: for a reference with an empty path 5.2.2 copies the
+    base path unchanged while the url crate (and the model) has already removed its dot segments
+    ([c14_dotted_base_differs]).  Every URI [resolve] returns satisfies the condition
+    ([c14_resolve_closed]), so it only constrains the caller's original URI.
+
+    One reading had to be fixed in the transcription: appendix B's scheme group "[^:/?#]+" is
+    accepted as a scheme only if it matches 3.1 (ALPHA *( ALPHA / DIGIT / "+" / "-" / "." ));
+    otherwise the reference is read as a relative path ("1:x", "a b:c"), as the url crate does. *)
+Theorem c14_resolve_matches_rfc : forall base loc,
+  base_path_ok (uri_path base) ->
+  resolve base loc = option_map uri_of (rfc_resolve (components_of base) loc).
+Proof. exact resolve_matches_rfc. Qed.
+
+Theorem c14_rfc_resolve_def : forall base loc,
+  rfc_resolve base loc = rfc_normalise (rfc_transform base (rfc_parse loc)).
+Proof. reflexivity. Qed.
+
+Example c14_dotted_base_differs :
+  let base := {| u_scheme := s2b "http"; u_auth := s2b "h"; u_pq := s2b "/a/../b" |} in
+  resolve base (s2b "?q") = Some {| u_scheme := s2b "http"; u_auth := s2b "h"; u_pq := s2b "/b?q" |} /\
+  option_map uri_of (rfc_resolve (components_of base) (s2b "?q")) =
+    Some {| u_scheme := s2b "http"; u_auth := s2b "h"; u_pq := s2b "/a/../b?q" |}.
+Proof. split; vm_compute; reflexivity. Qed.
+
+Theorem c14_resolve_closed : forall base loc t,
+  resolve base loc = Some t -> base_path_ok (uri_path t).
+Proof. exact resolve_closed. Qed.
+
+(** Hence along a chain every hop is an RFC resolution against the current URI. *)
+Theorem c14_chain_rfc : forall f locs fin,
+  redirect_chain f locs fin -> base_path_ok (uri_path (cur_uri f)) ->
+  fold_left rfc_resolve_opt locs (Some (cur_uri f)) = Some (cur_uri fin).
+Proof.
+  intros f locs fin H Hb. rewrite <- (fold_resolve_rfc locs _ Hb). apply chain_uri. exact H.
+Qed.
+
+Theorem c14_rfc_resolve_opt_def : forall acc loc,
+  rfc_resolve_opt acc loc =
+    match acc with
+    | Some u => option_map uri_of (rfc_resolve (components_of u) loc)
+    | None => None
+    end.
+Proof. reflexivity. Qed.
+
+(** The pieces, each for all inputs: the model's parser is the appendix-B parser ... *)
+Theorem c14_parse_matches_rfc : forall loc,
+  r_scheme (parse_ref loc) = rf_scheme (rfc_parse loc) /\
+  r_auth (parse_ref loc) = rf_authority (rfc_parse loc) /\
+  r_path (parse_ref loc) = rf_path (rfc_parse loc) /\
+  r_query (parse_ref loc) = rf_query (rfc_parse loc).
+Proof. exact parse_agree. Qed.
+
+(** ... the segment-list remove_dot_segments is the RFC's buffer algorithm, and merge is merge, on
+    empty / absolute paths (the only ones that reach them when the result is not [None]). *)
+Theorem c14_rds_matches_rfc : forall p,
+  p = [] \/ (exists t, p = 47 :: t) ->
+  rfc_remove_dot_segments p = remove_dot_segments p.
+Proof. exact rds_agree. Qed.
+
+Theorem c14_merge_matches_rfc : forall t rel,
+  rfc_merge true (47 :: t) rel = merge (47 :: t) rel /\ rfc_merge true [] rel = merge [47] rel.
+Proof. intros t rel. split; [apply merge_agree_abs|apply merge_agree_nil]. Qed.
+
+(* ------------------------------------------------------------------ properties of resolve *)
+
+(** The fragment of the Location is dropped ... *)
+Theorem c14_fragment_dropped : forall base loc, resolve base loc = resolve base (until 35 loc).
+Proof. exact resolve_fragment_dropped. Qed.
+
+(** ... and the result contains no "#" (unless the base's path-and-query already did). *)
+Theorem c14_no_fragment : forall base loc t,
+  ~ In 35 (u_pq base) -> resolve base loc = Some t -> ~ In 35 (u_pq t).
+Proof. exact resolve_no_hash. Qed.
+
+(** Scheme and authority: those of the Location when it has them, otherwise the base's
+    (lower-cased scheme; authority through [norm_auth]). *)
+Theorem c14_origin : forall base loc t,
+  resolve base loc = Some t ->
+  let r := rfc_parse loc in
+  u_scheme t = lower (match rf_scheme r with Some s => s | None => u_scheme base end) /\
+  norm_auth (u_scheme t) (match rf_authority r with Some a => a | None => u_auth base end)
+    = Some (u_auth t).
+Proof. exact resolve_origin. Qed.
+
+(** [norm_auth] is the specification's host / port normalisation. *)
+Theorem c14_norm_auth_def : forall scheme au,
+  norm_auth scheme au =
+    let '(host, after_host) := span (not_in [58]) au in
+    if is_nil host then None
+    else match normal_port_suffix scheme after_host with
+         | None => None
+         | Some port => Some (lower host ++ port)
+         end.
+Proof. exact norm_auth_spec. Qed.
+
+(** remove_dot_segments, for every path: idempotent, and no "." / ".." segment is left
+    ([path_segments]: the pieces between the "/" of an absolute path). *)
+Theorem c14_remove_dot_segments : forall p,
+  remove_dot_segments (remove_dot_segments p) = remove_dot_segments p /\
+  (remove_dot_segments p = [] \/ exists t, remove_dot_segments p = 47 :: t) /\
+  (remove_dot_segments p <> [] ->
+   Forall (fun s => s <> [46] /\ s <> [46; 46]) (path_segments (remove_dot_segments p))).
+Proof.
+  intros p. split; [apply model_rds_idempotent|]. split; [apply model_rds_abs_or_empty|].
+  apply model_rds_segments.
+Qed.
+
+Theorem c14_path_segments_def : forall p, path_segments p = split_on 47 (tl p) [].
+Proof. reflexivity. Qed.
+
+(** The same for the RFC's algorithm on empty / absolute paths. *)
+Theorem c14_rfc_remove_dot_segments : forall p,
+  p = [] \/ (exists t, p = 47 :: t) ->
+  rfc_remove_dot_segments (rfc_remove_dot_segments p) = rfc_remove_dot_segments p /\
+  (rfc_remove_dot_segments p <> [] ->
+   Forall (fun s => s <> [46] /\ s <> [46; 46]) (path_segments (rfc_remove_dot_segments p))).
+Proof. intros p H. split; [apply rfc_rds_idempotent; exact H|apply rfc_rds_no_dots; exact H]. Qed.
+
+(** The path of a resolved URI: the result of remove_dot_segments, without "?". *)
+Theorem c14_result_path : forall base loc t,
+  resolve base loc = Some t ->
+  exists p q, u_pq t = mk_pq p q /\ (p = [] \/ exists x, p = 47 :: x) /\
+              remove_dot_segments p = p /\ ~ In 63 p.
+Proof. exact resolve_result_path. Qed.
+
+(* ------------------------------------------------------------------ RFC 3986 5.4 (tests of the transcription) *)
+
+(** TEST of the transcription C14_spec.v, not a theorem about the code: the 23 normal and 19
+    abnormal examples of RFC 3986 5.4 (base http://a/b/c/d;p?q), fragments included, through
+    [rfc_parse], [rfc_transform], [rfc_recompose]; and the same references through the model
+    ([resolve], which drops the fragment; "g:h" and "http:g" are not http(s) targets: [None]). *)
+Example c14_rfc_examples :
+  List.length rfc54_normal = 23%nat /\ List.length rfc54_abnormal = 19%nat /\
+  forallb (fun b => b) (rfc54_normal ++ rfc54_abnormal) = true /\
+  List.length model54_all = 42%nat /\ forallb (fun b => b) model54_all = true.
+Proof. vm_compute. repeat split. Qed.
+
 (* ------------------------------------------------------------------ examples *)
 
 Definition ex_start : inner :=
@@ -225,6 +402,18 @@ Proof.
               Some (chain_heads (run_chain ex_start ex_responses), ex_locs,
                     chain_fin (run_chain ex_start ex_responses))) by (vm_compute; reflexivity).
   split; [exact E|]. split; [eapply run_chain_sound; exact E|]. split; vm_compute; reflexivity.
+Qed.
+
+(** The conditions of [c14_resolve_matches_rfc] / [c14_chain_rfc] hold on the same chain. *)
+Example c14_rfc_nonvacuous :
+  base_path_ok (uri_path (cur_uri ex_start)) /\
+  fold_left rfc_resolve_opt ex_locs (Some (cur_uri ex_start)) =
+    Some {| u_scheme := s2b "https"; u_auth := s2b "c.test:81"; u_pq := s2b "/" |} /\
+  rfc_resolve (components_of (cur_uri ex_start)) (s2b "HTTPS://B.test:0443/p/./q/../r?x#frag") =
+    Some (s2b "https", s2b "b.test", s2b "/p/r?x").
+Proof.
+  split; [split; [right; vm_compute; eauto|vm_compute; reflexivity]|].
+  split; vm_compute; reflexivity.
 Qed.
 
 (** The theorem distinguishes "against the current URI" from "against the original URI". *)
@@ -298,6 +487,28 @@ Print Assumptions c14_redirect_has_status.
 Print Assumptions c14_outcomes.
 Print Assumptions c14_no_panic.
 Print Assumptions c14_target_absolute.
+Print Assumptions c14_components_def.
+Print Assumptions c14_base_path_ok_def.
+Print Assumptions c14_resolve_matches_rfc.
+Print Assumptions c14_rfc_resolve_def.
+Print Assumptions c14_dotted_base_differs.
+Print Assumptions c14_resolve_closed.
+Print Assumptions c14_chain_rfc.
+Print Assumptions c14_rfc_resolve_opt_def.
+Print Assumptions c14_parse_matches_rfc.
+Print Assumptions c14_rds_matches_rfc.
+Print Assumptions c14_merge_matches_rfc.
+Print Assumptions c14_fragment_dropped.
+Print Assumptions c14_no_fragment.
+Print Assumptions c14_origin.
+Print Assumptions c14_norm_auth_def.
+Print Assumptions c14_remove_dot_segments.
+Print Assumptions c14_path_segments_def.
+Print Assumptions c14_rfc_remove_dot_segments.
+Print Assumptions c14_result_path.
+Print Assumptions c14_rfc_examples.
+Print Assumptions c14_headers_inherited.
+Print Assumptions c14_rfc_nonvacuous.
 Print Assumptions c14_nonvacuous.
 Print Assumptions c14_not_original.
 Print Assumptions c14_known_refuted.
